@@ -34,4 +34,293 @@ theorem B_bnd (j j2 j3 m2 m3 : Int) (hj : 0 ≤ j ∧ j ≤ 40000) (hj2 : 0 ≤ 
   unfold B
   exact (inferInstance : Bnd _ _ _).weaken (by decide) (by decide)
 
+
+/-- what the compiled `B` returns equals the mathematical value: every intermediate int64 operation
+    *and* the conversion to the declared return width are the identity on this domain -/
+theorem B_ret_eq (j j2 j3 m2 m3 : Int) (hj : 0 ≤ j ∧ j ≤ 40000) (hj2 : 0 ≤ j2 ∧ j2 ≤ 20000)
+    (hj3 : 0 ≤ j3 ∧ j3 ≤ 20000) (hm2 : -20001 ≤ m2 ∧ m2 ≤ 20001) (hm3 : -20001 ≤ m3 ∧ m3 ≤ 20001) :
+    B_ret j j2 j3 m2 m3 = B j j2 j3 m2 m3 := by
+  unfold B_ret
+  rw [B_w_eq j j2 j3 m2 m3 hj hj2 hj3 hm2 hm3]
+  have h := B_bnd j j2 j3 m2 m3 hj hj2 hj3 hm2 hm3
+  exact wrap64_id _ h.1 (by omega)
+
+/-! ### radicand of `A` -/
+
+/-- squares are non-negative: sharper than the generic product interval -/
+instance (priority := high) bndSq (a la ha : Int) [x : Bnd a la ha] :
+    Bnd (a * a) 0 (max (la * la) (ha * ha)) :=
+  ⟨by
+    have h := x.out
+    refine ⟨mul_self_nonneg a, ?_⟩
+    rcases le_total 0 a with h0 | h0
+    · exact le_trans (by nlinarith) (le_max_right _ _)
+    · exact le_trans (by nlinarith) (le_max_left _ _)⟩
+
+/-- exactness on a box (no relation between `j`, `j2`, `j3`, `m1` assumed): interval arithmetic -/
+theorem A_radicand_w_box (j j2 j3 m1 : Int) (hj : 0 ≤ j ∧ j ≤ 1440) (hj2 : 0 ≤ j2 ∧ j2 ≤ 720)
+    (hj3 : 0 ≤ j3 ∧ j3 ≤ 720) (hm1 : -1440 ≤ m1 ∧ m1 ≤ 1440) :
+    A_radicand_w j j2 j3 m1 = A_radicand j j2 j3 m1 := by
+  have : Bnd j 0 1440 := ⟨hj⟩
+  have : Bnd j2 0 720 := ⟨hj2⟩
+  have : Bnd j3 0 720 := ⟨hj3⟩
+  have : Bnd m1 (-1440) 1440 := ⟨hm1⟩
+  unfold A_radicand_w A_radicand
+  simp (discharger := decide) only [wrap64_bnd]
+  ring
+
+/-- AM-GM in the form needed: `x²(S-x) ≤ 4S³/27` -/
+theorem amgm (x S : Int) (hx : 0 ≤ x) (hS : 0 ≤ S) : 27 * (x * (S - x) * x) ≤ 4 * S ^ 3 := by
+  nlinarith [mul_nonneg (sq_nonneg (3 * x - 2 * S)) (by linarith : 0 ≤ 3 * x + S)]
+
+/-- the three factors of the radicand on the admissible domain -/
+theorem A_factors (j j2 j3 m1 : Int) (hlo : ((j2 - j3).natAbs : Int) ≤ j) (hhi : j ≤ j2 + j3 + 1)
+    (hm : (m1.natAbs : Int) ≤ j) :
+    (0 ≤ j * j - (j2 - j3) * (j2 - j3) ∧ j * j - (j2 - j3) * (j2 - j3) ≤ j * j) ∧
+    0 ≤ (j2 + j3 + 1) * (j2 + j3 + 1) - j * j ∧
+    (0 ≤ j * j - m1 * m1 ∧ j * j - m1 * m1 ≤ j * j) := by
+  have hj : 0 ≤ j := le_trans (Int.natCast_nonneg _) hlo
+  have a1 : -j ≤ j2 - j3 ∧ j2 - j3 ≤ j := by omega
+  have a2 : -j ≤ m1 ∧ m1 ≤ j := by omega
+  refine ⟨⟨?_, ?_⟩, ?_, ?_, ?_⟩
+  · nlinarith
+  · nlinarith [mul_self_nonneg (j2 - j3)]
+  · nlinarith
+  · nlinarith
+  · nlinarith [mul_self_nonneg m1]
+
+theorem A_radicand_nonneg (j j2 j3 m1 : Int) (hlo : ((j2 - j3).natAbs : Int) ≤ j)
+    (hhi : j ≤ j2 + j3 + 1) (hm : (m1.natAbs : Int) ≤ j) : 0 ≤ A_radicand j j2 j3 m1 := by
+  obtain ⟨⟨h1, _⟩, h2, h3, _⟩ := A_factors j j2 j3 m1 hlo hhi hm
+  unfold A_radicand
+  simp only [pow_two]
+  exact mul_nonneg (mul_nonneg h1 h2) h3
+
+/-- bounds of the two products on the admissible domain with `j2 + j3 ≤ 1989` -/
+theorem A_products_bnd (j j2 j3 m1 : Int) (hs : j2 + j3 ≤ 1989)
+    (hlo : ((j2 - j3).natAbs : Int) ≤ j) (hhi : j ≤ j2 + j3 + 1) (hm : (m1.natAbs : Int) ≤ j) :
+    (0 ≤ (j * j - (j2 - j3) * (j2 - j3)) * ((j2 + j3 + 1) * (j2 + j3 + 1) - j * j) ∧
+      (j * j - (j2 - j3) * (j2 - j3)) * ((j2 + j3 + 1) * (j2 + j3 + 1) - j * j) ≤ 15682392040000) ∧
+    (0 ≤ (j * j - (j2 - j3) * (j2 - j3)) * ((j2 + j3 + 1) * (j2 + j3 + 1) - j * j) * (j * j - m1 * m1) ∧
+      (j * j - (j2 - j3) * (j2 - j3)) * ((j2 + j3 + 1) * (j2 + j3 + 1) - j * j) * (j * j - m1 * m1)
+        ≤ 9223372036854775807) := by
+  obtain ⟨⟨h1, h1'⟩, h2, h3, h3'⟩ := A_factors j j2 j3 m1 hlo hhi hm
+  have hj : 0 ≤ j := le_trans (Int.natCast_nonneg _) hlo
+  generalize hf1 : j * j - (j2 - j3) * (j2 - j3) = f1 at *
+  generalize hf3 : j * j - m1 * m1 = f3 at *
+  have hx : 0 ≤ j * j := mul_self_nonneg j
+  have hS0 : 0 ≤ (j2 + j3 + 1) * (j2 + j3 + 1) := mul_self_nonneg _
+  have hS : (j2 + j3 + 1) * (j2 + j3 + 1) ≤ 3960100 := by nlinarith
+  generalize (j2 + j3 + 1) * (j2 + j3 + 1) = S at *
+  generalize j * j = x at *
+  have p12 : f1 * (S - x) ≤ x * (S - x) := mul_le_mul_of_nonneg_right h1' h2
+  have p123 : f1 * (S - x) * f3 ≤ x * (S - x) * x :=
+    mul_le_mul p12 h3' h3 (mul_nonneg hx h2)
+  have hk := amgm x S hx hS0
+  have hS3 : S ^ 3 ≤ 3960100 ^ 3 := pow_le_pow_left₀ hS0 hS 3
+  refine ⟨⟨mul_nonneg h1 h2, ?_⟩, mul_nonneg (mul_nonneg h1 h2) h3, ?_⟩
+  · nlinarith
+  · norm_num at hS3; omega
+
+/-- exactness on the whole admissible domain of the recursion, up to the sharp size `j2 + j3 ≤ 1989` -/
+theorem A_radicand_w_adm (j j2 j3 m1 : Int) (hj2 : 0 ≤ j2) (hj3 : 0 ≤ j3) (hs : j2 + j3 ≤ 1989)
+    (hlo : ((j2 - j3).natAbs : Int) ≤ j) (hhi : j ≤ j2 + j3 + 1) (hm : (m1.natAbs : Int) ≤ j) :
+    A_radicand_w j j2 j3 m1 = A_radicand j j2 j3 m1 := by
+  have : Bnd j 0 1990 := ⟨by omega⟩
+  have : Bnd j2 0 1989 := ⟨by omega⟩
+  have : Bnd j3 0 1989 := ⟨by omega⟩
+  have : Bnd m1 (-1990) 1990 := ⟨by omega⟩
+  obtain ⟨_, b3, b4⟩ := A_products_bnd j j2 j3 m1 hs hlo hhi hm
+  unfold A_radicand_w A_radicand
+  simp (discharger := decide) only [wrap64_bnd]
+  -- the inner product is within interval-arithmetic reach; the outer one needs the AM-GM bound
+  rw [wrap64_id _ (by omega) (by omega)]
+  ring
+
+
+/-! ### the model, for every arithmetic -/
+section model
+open Model.W3j Scalar
+variable {α : Type} [Scalar α]
+
+/-- zeroing a workspace gives a result that depends on its length only -/
+theorem map_zero_congr (ws₁ ws₂ : Array α) (h : ws₁.size = ws₂.size) :
+    ws₁.map (fun _ => (zero : α)) = ws₂.map (fun _ => (zero : α)) := by
+  apply Array.ext
+  · simp [h]
+  · intro i h1 h2; simp
+
+theorem calculate_pure (size : Nat) (ws₁ ws₂ : Array α) (j2 j3 m2 m3 : Int)
+    (h : ws₁.size = ws₂.size) :
+    calculate size ws₁ j2 j3 m2 m3 = calculate size ws₂ j2 j3 m2 m3 := by
+  unfold calculate
+  rw [map_zero_congr ws₁ ws₂ h]
+
+theorem calculate_out_of_range (size : Nat) (ws : Array α) (j2 j3 m2 m3 : Int)
+    (h : (m2.natAbs : Int) > j2 ∨ (m3.natAbs : Int) > j3 ∨
+      j2 + j3 < max ((j2 - j3).natAbs : Int) ((m2 + m3).natAbs : Int)) :
+    calculate size ws j2 j3 m2 m3 = ⟨(ws.map (fun _ => zero)).extract 0 size, false⟩ := by
+  unfold calculate
+  by_cases h1 : (decide ((m2.natAbs : Int) > j2) || decide ((m3.natAbs : Int) > j3)) = true
+  · simp only [h1, ↓reduceIte]
+    rfl
+  · have h2 : j2 + j3 < max ((j2 - j3).natAbs : Int) ((m2 + m3).natAbs : Int) := by
+      simp only [Bool.or_eq_true, decide_eq_true_eq] at h1
+      rcases h with h | h | h
+      · exact absurd (Or.inl h) h1
+      · exact absurd (Or.inr h) h1
+      · exact h
+    simp only [h1, h2, ↓reduceIte]
+    rfl
+
+/-- the arguments after the cyclic permutation of `Wigner3j` that puts the largest `j` first -/
+structure Perm where
+  a1 : Int
+  a2 : Int
+  a3 : Int
+  b1 : Int
+  b2 : Int
+  b3 : Int
+
+/-- exactly the branch structure of the source: `j1 = max → identity`, else `j2 = max → (2,3,1)`,
+    else `(3,1,2)` -/
+def perm (j1 j2 j3 m1 m2 m3 : Int) : Perm :=
+  if j1 = max (max j1 j2) j3 then ⟨j1, j2, j3, m1, m2, m3⟩
+  else if j2 = max (max j1 j2) j3 then ⟨j2, j3, j1, m2, m3, m1⟩
+  else ⟨j3, j1, j2, m3, m1, m2⟩
+
+theorem perm_cyclic (j1 j2 j3 m1 m2 m3 : Int) :
+    perm j1 j2 j3 m1 m2 m3 = ⟨j1, j2, j3, m1, m2, m3⟩ ∨
+    perm j1 j2 j3 m1 m2 m3 = ⟨j2, j3, j1, m2, m3, m1⟩ ∨
+    perm j1 j2 j3 m1 m2 m3 = ⟨j3, j1, j2, m3, m1, m2⟩ := by
+  unfold perm
+  split
+  · exact Or.inl rfl
+  · split
+    · exact Or.inr (Or.inl rfl)
+    · exact Or.inr (Or.inr rfl)
+
+theorem perm_a1 (j1 j2 j3 m1 m2 m3 : Int) :
+    (perm j1 j2 j3 m1 m2 m3).a1 = max (max j1 j2) j3 := by
+  unfold perm
+  split
+  · assumption
+  · split
+    · assumption
+    · show j3 = _
+      omega
+
+theorem wigner3j_m_sum (j1 j2 j3 m1 m2 m3 : Int) (h : m1 + m2 + m3 ≠ 0) :
+    wigner3j (α := α) j1 j2 j3 m1 m2 m3 = some zero := by
+  unfold wigner3j
+  rw [if_pos h]
+
+theorem wigner3j_m_range (j1 j2 j3 m1 m2 m3 : Int)
+    (h : (m1.natAbs : Int) > j1 ∨ (m2.natAbs : Int) > j2 ∨ (m3.natAbs : Int) > j3) :
+    wigner3j (α := α) j1 j2 j3 m1 m2 m3 = some zero := by
+  unfold wigner3j
+  split
+  · rfl
+  · have : (decide ((m1.natAbs : Int) > j1) || decide ((m2.natAbs : Int) > j2)
+        || decide ((m3.natAbs : Int) > j3)) = true := by
+      simp only [Bool.or_eq_true, decide_eq_true_eq]
+      tauto
+    rw [if_pos this]
+
+/-- the front end, past the selection rules on `m` -/
+theorem wigner3j_eq (j1 j2 j3 m1 m2 m3 : Int) (hs : m1 + m2 + m3 = 0)
+    (h1 : (m1.natAbs : Int) ≤ j1) (h2 : (m2.natAbs : Int) ≤ j2) (h3 : (m3.natAbs : Int) ≤ j3) :
+    wigner3j (α := α) j1 j2 j3 m1 m2 m3 =
+      let p := perm j1 j2 j3 m1 m2 m3
+      if p.a1 > p.a2 + p.a3 then some zero else
+      let size := (p.a2 + p.a3 + 1).toNat
+      let r := calculate (α := α) size (Array.replicate (4*size) zero) p.a2 p.a3 p.b2 p.b3
+      if r.raised then none else some (geti r.f p.a1) := by
+  have hm : (decide ((m1.natAbs : Int) > j1) || decide ((m2.natAbs : Int) > j2)
+        || decide ((m3.natAbs : Int) > j3)) = false := by
+    simp only [Bool.or_eq_false_iff, decide_eq_false_iff_not]
+    omega
+  unfold wigner3j perm
+  simp only [hs, ne_eq, not_true_eq_false, ↓reduceIte, hm, Bool.false_eq_true]
+  split
+  · rfl
+  · split <;> rfl
+
+
+theorem perm_sum (j1 j2 j3 m1 m2 m3 : Int) :
+    (perm j1 j2 j3 m1 m2 m3).a1 + (perm j1 j2 j3 m1 m2 m3).a2 + (perm j1 j2 j3 m1 m2 m3).a3
+      = j1 + j2 + j3 := by
+  rcases perm_cyclic j1 j2 j3 m1 m2 m3 with h | h | h <;> rw [h] <;> simp only <;> omega
+
+/-- triangle rule: the largest `j` exceeds the sum of the other two -/
+theorem wigner3j_triangle_max (j1 j2 j3 m1 m2 m3 : Int)
+    (h : 2 * max (max j1 j2) j3 > j1 + j2 + j3) :
+    wigner3j (α := α) j1 j2 j3 m1 m2 m3 = some zero := by
+  by_cases hs : m1 + m2 + m3 = 0
+  · by_cases hr : (m1.natAbs : Int) > j1 ∨ (m2.natAbs : Int) > j2 ∨ (m3.natAbs : Int) > j3
+    · exact wigner3j_m_range j1 j2 j3 m1 m2 m3 hr
+    · rw [wigner3j_eq j1 j2 j3 m1 m2 m3 hs (by omega) (by omega) (by omega)]
+      have e1 := perm_a1 j1 j2 j3 m1 m2 m3
+      have e2 := perm_sum j1 j2 j3 m1 m2 m3
+      simp only
+      rw [if_pos (by omega)]
+  · exact wigner3j_m_sum j1 j2 j3 m1 m2 m3 hs
+
+/-- triangle rule, symmetric form -/
+theorem wigner3j_triangle (j1 j2 j3 m1 m2 m3 : Int)
+    (h : j1 > j2 + j3 ∨ j2 > j3 + j1 ∨ j3 > j1 + j2) :
+    wigner3j (α := α) j1 j2 j3 m1 m2 m3 = some zero := by
+  by_cases hr : (m1.natAbs : Int) > j1 ∨ (m2.natAbs : Int) > j2 ∨ (m3.natAbs : Int) > j3
+  · exact wigner3j_m_range j1 j2 j3 m1 m2 m3 hr
+  · exact wigner3j_triangle_max j1 j2 j3 m1 m2 m3 (by omega)
+
+/-- when the selection rules pass, the value is entry `a1` of a fresh calculator of exactly the
+    needed capacity run on the permuted arguments -/
+theorem wigner3j_perm (j1 j2 j3 m1 m2 m3 : Int) (hs : m1 + m2 + m3 = 0)
+    (h1 : (m1.natAbs : Int) ≤ j1) (h2 : (m2.natAbs : Int) ≤ j2) (h3 : (m3.natAbs : Int) ≤ j3)
+    (ht : 2 * max (max j1 j2) j3 ≤ j1 + j2 + j3) :
+    wigner3j (α := α) j1 j2 j3 m1 m2 m3 =
+      let p := perm j1 j2 j3 m1 m2 m3
+      let size := (p.a2 + p.a3 + 1).toNat
+      let r := calculate (α := α) size (Array.replicate (4*size) zero) p.a2 p.a3 p.b2 p.b3
+      if r.raised then none else some (geti r.f p.a1) := by
+  rw [wigner3j_eq j1 j2 j3 m1 m2 m3 hs h1 h2 h3]
+  have e1 := perm_a1 j1 j2 j3 m1 m2 m3
+  have e2 := perm_sum j1 j2 j3 m1 m2 m3
+  simp only
+  rw [if_neg (by omega)]
+
+/-- the call made by the front end is inside the calculator's domain: `|b2| ≤ a2`, `|b3| ≤ a3`,
+    `b1 + b2 + b3 = 0` and `max |a2-a3| |b2+b3| ≤ a1 ≤ a2 + a3 < size` -/
+theorem perm_call_in_domain (j1 j2 j3 m1 m2 m3 : Int) (hs : m1 + m2 + m3 = 0)
+    (h1 : (m1.natAbs : Int) ≤ j1) (h2 : (m2.natAbs : Int) ≤ j2) (h3 : (m3.natAbs : Int) ≤ j3)
+    (ht : 2 * max (max j1 j2) j3 ≤ j1 + j2 + j3) :
+    let p := perm j1 j2 j3 m1 m2 m3
+    ((p.b2.natAbs : Int) ≤ p.a2 ∧ (p.b3.natAbs : Int) ≤ p.a3 ∧ p.b1 + p.b2 + p.b3 = 0) ∧
+    max ((p.a2 - p.a3).natAbs : Int) ((p.b2 + p.b3).natAbs : Int) ≤ p.a1 ∧ p.a1 ≤ p.a2 + p.a3 ∧
+    p.a1.toNat < (p.a2 + p.a3 + 1).toNat := by
+  have e1 := perm_a1 j1 j2 j3 m1 m2 m3
+  rcases perm_cyclic j1 j2 j3 m1 m2 m3 with h | h | h <;> rw [h] at e1 ⊢ <;> simp only at e1 ⊢ <;>
+    omega
+
+theorem clebschGordan_def (j1 m1 j2 m2 j3 m3 : Int) :
+    clebschGordan (α := α) j1 m1 j2 m2 j3 m3 =
+      (wigner3j (α := α) j1 j2 j3 m1 m2 (-m3)).map
+        (fun w => ((ofInt (parity (j1 - j2 + m3)) : α) *. sqrt (ofInt (2*j3+1))) *. w) := by
+  unfold clebschGordan
+  cases wigner3j (α := α) j1 j2 j3 m1 m2 (-m3) <;> rfl
+
+theorem parity_eq (k : Int) : parity k = (-1) ^ k.natAbs := by
+  have key : ∀ n : Nat, ((-1 : Int)) ^ n = if n % 2 = 0 then 1 else -1 := by
+    intro n
+    induction n with
+    | zero => simp
+    | succ n ih =>
+      rw [pow_succ, ih]
+      split <;> split <;> omega
+  rw [key]; unfold parity
+  split <;> split <;> omega
+
+end model
+
 end Lemmas.W3j
